@@ -167,6 +167,25 @@ def value_equality(chk, r, tier):
                                   dict(api="Point.intersects(Point)", point=a, shape=b, subtypes=[sa, sb], expected=want, got=got))
                 chk.nontriv(hash(("valeq", tuple(a), tuple(b), sa, sb)))
     chk.count("value-equality-cases", len(cases))
+    # the positions of the restricted form given as a python list or as a narrow integer array, on an array longer than 127
+    from spatialpandas.geometry import LineArray
+    long_arr = PointArray(np.array([[i, i] for i in range(200)], dtype="float64"))
+    shapes = {"point": PointArray(np.array([[150.0, 150.0]]))[0], "multipoint": MultiPointArray([[150, 150, 3, 3]], dtype="float64")[0],
+              "line": LineArray([[149, 149, 151, 151]], dtype="float64")[0]}
+    for sk, shape in shapes.items():
+        whole = [bool(x) for x in long_arr.intersects(shape)]
+        for how, inds in (("list", [150, 3, 199]), ("uint8", np.array([150, 3, 199], dtype=np.uint8)), ("int16", np.array([150, 3, 199], dtype=np.int16)),
+                          ("int64", np.array([150, 3, 199]))):
+            try:
+                got = [bool(x) for x in long_arr.intersects(shape, inds=inds)]
+            except Exception as e:  # noqa: BLE001
+                chk.violation(f"intersects/{sk}/inds-form-raises-{common.err_kind(e)}/{how}-positions", dict(api="PointArray.intersects(inds=)", kind=sk, inds=[150, 3, 199], inds_type=how, error=repr(e)[:200]))
+                continue
+            chk.evaluated()
+            if got != [whole[150], whole[3], whole[199]]:
+                chk.violation(f"intersects/{sk}/inds-form-differs/{how}-positions", dict(api="PointArray.intersects(inds=)", kind=sk, inds=[150, 3, 199], inds_type=how, got=got,
+                                                                                       whole_array=[whole[150], whole[3], whole[199]]))
+    chk.count("position-types")
 
 
 def run_cases(chk, tier):
